@@ -1,55 +1,14 @@
 import Mustache.Driver.Worlds
-import Mustache.Proofs.WorldsId
+/-! The per-world operations issued by the executable model driver (`driver worlds`) are id-preserving. -/
 namespace Mustache.Proofs.WorldsDriver
-open Mustache Mustache.Model Mustache.Driver.World Mustache.Proofs.WorldsId
+open Mustache Mustache.Model
 
-@[simp] theorem issue_w (s : St) (h : Handle) : (s.issue h).1.w = s.w := rfl
-
-theorem exec_wid (s : St) (t : Nat) (ws : List String) : (exec s t ws).1.w.worldId = s.w.worldId := by
-  unfold exec
-  split
-  · rfl
-  · split <;> rfl
-  · split
-    · rfl
-    · rename_i op _
-      simp -zeta only []
-      have h := Mustache.Proofs.WorldsId.step_wid catalogue s.w op
-      split <;> first | exact h | (simp only [issue_w]; exact h)
-
-theorem line_wid (s : St) (line : String) (hd : words line ≠ ["dump"]) (hw : ∀ n, words line ≠ ["worldid", n]) :
-    (step s line).1.w.worldId = s.w.worldId := by
-  unfold step
-  split
-  · split <;> rfl
-  · rename_i n heq
-    exact absurd heq (hw n)
-  · rfl
-  · rfl
-  · rename_i heq
-    exact absurd heq hd
-  · rfl
-  · rfl
-  · extract_lets tid
-    clear_value tid
-    cases tid with
-    | none => exact exec_wid _ _ _
-    | some t =>
-      simp -zeta only []
-      split
-      · rfl
-      · split
-        · rfl
-        · exact exec_wid _ _ _
-
-/-- every per-world operation the model driver (`driver worlds`) issues leaves the world's id alone -/
-theorem lineEffect_wid (side : St) (line : String) (wm : WM) :
+theorem lineEffect_wid (side : Mustache.Driver.World.St) (line : String) (wm : WM) :
     (Mustache.Driver.Worlds.lineEffect side line wm).worldId = wm.worldId := by
   unfold Mustache.Driver.Worlds.lineEffect
+  simp only []
   split
+  · assumption
   · rfl
-  · rfl
-  · rename_i h1 h2
-    exact line_wid { side with w := wm } line h1 (fun n hn => h2 n hn)
 
 end Mustache.Proofs.WorldsDriver
